@@ -463,6 +463,49 @@ func init() {
 						"b.tw": "@component(\"~box\", {t: 2.5})@slot{{ s = \"str\" }}{{ s }}@end@end", "c.tw": "@component(\"~box\", {t: 1})@slot{{ s }}@end@end", "d.tw": "@component(\"~box\", {t: 1}){{ inside }}"},
 						[]dataLessStep{{"a", "<5|page-t!>page-t", false}, {"b", "<str|2.5>", false}, {"c", "", true}, {"d", "", true}, {"a", "<5|page-t!>page-t", false}}, "data-less")
 				}},
+				// arguments built by built-ins from one array of the page (lengths 1..9, from the data and as a literal): every
+				// argument, every use and the array itself show their own elements
+				{Name: "arguments-built-from-one-array", Exhaustive: true, N: 9 * 2, Run: func(c *core.Ctx, i int) {
+					n := 1 + i%9
+					fromData := i/9 == 1
+					var elems, lits []string
+					for k := 0; k < n; k++ {
+						elems = append(elems, string(rune('a'+k)))
+						lits = append(lits, fmt.Sprintf("%q", string(rune('a'+k))))
+					}
+					base := strings.Join(elems, "")
+					pre := "{{ base = [" + strings.Join(lits, ", ") + "] }}"
+					var data map[string]any
+					if fromData {
+						pre = ""
+						data = map[string]any{"base": elems}
+					}
+					page := pre + `@component("~pair", {left: base.append("L"), right: base.append("R")})` +
+						`@component("~pair", {right: base.prepend("P"), left: base.slice(0, 1).append("x")})` +
+						`@each(k in [1, 2])@component("~pair", {left: base.append(k.str()), right: base.slice(0, 1).append("y").append("z")})@end` +
+						`@component("~pair", {left: base, right: base.reverse()})@slot{{ base.append("S").join("") }}@end@end{{ base.join("") }}`
+					first := base[:1]
+					rev := []byte(base)
+					for a, b := 0, len(rev)-1; a < b; a, b = a+1, b-1 {
+						rev[a], rev[b] = rev[b], rev[a]
+					}
+					files := map[string]string{"components/pair.tw": "<{{ left.join(\"\") }}|{{ right.join(\"\") }}:@slot>", "page.tw": page}
+					// (the default slot is only passed by the last use; every use prints ':' before it)
+					want := "<" + base + "L|" + base + "R:>" + "<" + first + "x|P" + base + ":>" + "<" + base + "1|" + first + "yz:><" + base + "2|" + first + "yz:><" + base + "|" + string(rev) + ":" + base + "S>" + base
+					tpl, err := loadTree(c, "c07args", files, ".tw")
+					c.Nontrivial(fmt.Sprint(n, fromData))
+					if err != nil {
+						c.Violation("load-failed", "a valid component tree was rejected: "+err.Error(), map[string]any{"files": describeFiles(files)})
+						return
+					}
+					if tpl == nil {
+						return
+					}
+					got, _ := renderPage(c, tpl, "page", data)
+					if !got.Panicked && (got.Err != nil || got.Out != want) {
+						c.Violation("arguments-from-one-array", fmt.Sprintf("the page rendered %s, want %q", got.Describe(), want), map[string]any{"files": describeFiles(files), "from_data": fromData})
+					}
+				}},
 				// text between a component's ")" and what follows is text unless it is plain whitespace before a @slot:
 				// whatever the rest renders to, these bytes must be in the output
 				{Name: "text-after-component", Exhaustive: true, N: 9 * 3, Run: func(c *core.Ctx, i int) {
